@@ -821,7 +821,7 @@ func probes(res *core.Result, ls listSpec, l *listRun) {
 func finish(res *core.Result, ls listSpec, o core.RunOpts, extraTrace []string) *core.Result {
 	l, escaped := execList(ls, o.KeepTrace)
 	h := core.NewHash()
-	h.Add(uint64(ls.enc*2+ls.dir)<<8 | uint64(ls.shape)<<4 | b2u(ls.goexit)<<1 | uint64(ls.typeHelper)<<2)
+	h.Add(uint64(ls.enc*2+ls.dir)<<8 | uint64(ls.shape)<<4 | b2u(ls.goexit)<<1 | uint64(ls.typeHelper)<<2 | uint64(ls.prelude)<<16 | b2u(ls.narrow)<<20)
 	for _, c := range ls.cases {
 		h.Add(uint64(c.constraint)<<24 | uint64(c.beh)<<16 | uint64(c.before)<<12 | uint64(c.after)<<8 | uint64(c.pred) | b2u(c.nilValue)<<28 | b2u(c.nilIface)<<29 | b2u(c.adjust)<<30 | uint64(c.wrongKind)<<32 | b2u(c.wildcard)<<31 | b2u(c.nilExpect)<<36 | b2u(c.other)<<37 | b2u(c.emptyData)<<38 | b2u(c.nilData)<<39 | b2u(c.adjustPred)<<40 | b2u(c.adjustAfter)<<42 | b2u(c.beforeSetsAfter)<<43 | b2u(len(c.payload) > 1000)<<41)
 	}
@@ -945,6 +945,15 @@ func (Prop) Run(t *core.Tape, o core.RunOpts) *core.Result {
 		normalise(&ls)
 	}
 	singles := t.Bool(1, 4)
+	// drawn last, so that every list drawn before these two existed is still the same list
+	if t.Bool(1, 4) {
+		ls.prelude = 1 + t.Choose(4)
+		res.Probes.Inc("prelude_other_helper_same_type")
+	}
+	if ls.shape == shIface && t.Bool(1, 3) {
+		ls.narrow = true
+		res.Probes.Inc("narrow_interface_typed_T")
+	}
 	finish(res, ls, o, nil)
 	if res.Violation != nil || !ls.hasInterface() || !singles {
 		return res
